@@ -21,6 +21,32 @@ ModelOut(op) == IF op.op = "DataflowBlock" THEN Len(op.sum_rows) ELSE NVal(op, "
 Exported(d, p) == SelectSeq(Children(d, p), LAMBDA c : Op(d, c).op \notin {"Input", "Output", "Const", "ExitBlock"})
 ToSetM(s) == {s[i] : i \in 1..Len(s)}
 
+(* ---- the term language of exported signatures ---------------------------------------------------
+   d.rows[k] = the row-valued fields of node k-1 of the wire document, every type translated on its own to a term and projected to
+       [k |-> "ty", s]  (any other term, printed)   [k |-> "adt", rows]   [k |-> "ctrl", row]   [k |-> "fn", ins, outs]
+   in a record of one shape [a, b, c, rows] (unused fields empty):
+       DFG/CFG/Extension/Call/CallIndirect/FuncDefn/FuncDecl  a = inputs, b = outputs (of signature / instantiation / body)
+       LoadConstant b = <<datatype>>       Conditional rows = sum_rows, a = other_inputs, b = outputs
+       TailLoop a = just_inputs, b = just_outputs, c = rest      DataflowBlock a = inputs, rows = sum_rows, c = other_outputs
+       Tag rows = variants      Input/Output a = types      ExitBlock a = cfg_outputs
+   m.sig / r.sig / m.symsig = the exported signature terms under the same projection. How rows COMPOSE into the signature of each
+   operation is the specification's (hugr-core/src/export.rs export_block_signature, ops/controlflow.rs, ops/dataflow.rs). *)
+Fn(ins, outs) == [k |-> "fn", ins |-> ins, outs |-> outs]
+Adt(rows)     == [k |-> "adt", rows |-> rows]
+Ctrl(row)     == [k |-> "ctrl", row |-> row]
+HasSigLaw(op) == op.op \in {"DFG", "CFG", "Extension", "Call", "CallIndirect", "LoadConstant", "Conditional", "TailLoop", "DataflowBlock", "Tag"}
+ExpNodeSig(op, r) ==
+  CASE op.op \in {"DFG", "CFG", "Extension", "Call"} -> Fn(r.a, r.b)
+    [] op.op = "CallIndirect"  -> Fn(<<Fn(r.a, r.b)>> \o r.a, r.b)              \* the function value, then its arguments
+    [] op.op = "LoadConstant"  -> Fn(<<>>, r.b)
+    [] op.op = "Conditional"   -> Fn(<<Adt(r.rows)>> \o r.a, r.b)                \* the branching sum, then the other inputs
+    [] op.op = "TailLoop"      -> Fn(r.a \o r.c, r.b \o r.c)
+    [] op.op = "DataflowBlock" -> Fn(<<Ctrl(r.a)>>, [j \in 1..Len(r.rows) |-> Ctrl(r.rows[j] \o r.c)])   \* EVERY successor gets the other outputs
+    [] op.op = "Tag"           -> Fn(r.rows[op.tag + 1], <<Adt(r.rows)>>)
+    [] OTHER -> Fn(<<>>, <<>>)
+(* the signature's arity is the number of listed ports (the property's "value ports of its signature") *)
+SigArityOK(m) == m.sig.k = "fn" /\ Len(m.sig.ins) = Len(m.inputs) /\ Len(m.sig.outs) = Len(m.outputs)
+
 (* ---- regions mirror the hierarchy -------------------------------------------------------------- *)
 RECURSIVE NodeOK(_, _, _), DfgRegionOK(_, _, _), CfgRegionOK(_, _, _)
 NodeOK(d, n, m) ==
@@ -34,6 +60,8 @@ NodeOK(d, n, m) ==
         /\ ToSetM(m.nonlinear) = {k - 1 : k \in {j \in 1..Len(op.signature.params) :
                                                   op.signature.params[j].tp = "Type" /\ op.signature.params[j].b = "C"}}
         /\ Len(m.nonlinear) = Cardinality(ToSetM(m.nonlinear)))
+  /\ (HasSigLaw(op) => m.sig = ExpNodeSig(op, d.rows[n + 1]) /\ SigArityOK(m))                  \* the exported signature term
+  /\ (op.op \in {"FuncDefn", "FuncDecl"} => m.symsig = Fn(d.rows[n + 1].a, d.rows[n + 1].b))     \* the symbol's type is the body
   /\ CASE HasInner(op) -> Len(m.regions) = 1 /\ DfgRegionOK(d, n, m.regions[1])
        [] op.op = "Conditional" -> /\ Len(m.regions) = Len(Children(d, n))
                                    /\ \A k \in 1..Len(m.regions) : DfgRegionOK(d, Children(d, n)[k], m.regions[k])   \* cases in order
@@ -45,10 +73,12 @@ DfgRegionOK(d, p, r) ==
   /\ Len(r.sources) = NVal(Op(d, kids[1]), "out")            \* Input  -> region sources
   /\ Len(r.targets) = NVal(Op(d, kids[2]), "in")             \* Output -> region targets
   /\ Len(r.children) = Len(ch)                               \* constants are inlined into their loads
+  /\ r.sig = Fn(d.rows[kids[1] + 1].a, d.rows[kids[2] + 1].a) \* region type: the Input's row to the Output's row
   /\ \A k \in 1..Len(ch) : NodeOK(d, ch[k], r.children[k])
 CfgRegionOK(d, p, r) ==
-  LET ch == Exported(d, p) IN
+  LET ch == Exported(d, p) kids == Children(d, p) IN
   /\ r.kind = "CONTROL_FLOW" /\ Len(r.sources) = 1 /\ Len(r.targets) = 1
+  /\ Len(kids) >= 2 /\ r.sig = Fn(d.rows[kids[1] + 1].a, d.rows[kids[2] + 1].a)   \* entry block inputs to the exit block's outputs
   /\ Len(r.children) = Len(ch)                               \* blocks keep their order
   /\ \A k \in 1..Len(ch) : NodeOK(d, ch[k], r.children[k])
 ModuleOK(d, r) ==
@@ -143,7 +173,7 @@ NodeHintsOK(d, n, m) ==
 OrderHints(d, exp) == \A k \in 1..Len(exp.children) : NodeHintsOK(d, Exported(d, 0)[k], exp.children[k])
 
 ExportFailing(d, exp) ==
-  IF ~RegionsMirrorHierarchy(d, exp) THEN {"RegionsMirrorHierarchy/PortsAreValuePorts/MetadataCarried/SymbolParams/ConstInlined"}
+  IF ~RegionsMirrorHierarchy(d, exp) THEN {"RegionsMirrorHierarchy/PortsAreValuePorts/MetadataCarried/SymbolParams/ConstInlined/Signatures"}
   ELSE (IF LinkPartition(d, exp) THEN {} ELSE {"LinkPartition"}) \cup (IF Hyperedge(d, exp) THEN {} ELSE {"Hyperedge"})
        \cup (IF SymbolsResolve(d, exp) THEN {} ELSE {"SymbolsResolve"}) \cup (IF OrderHints(d, exp) THEN {} ELSE {"OrderHints"})
 =============================================================================
